@@ -597,3 +597,23 @@ def _q_round(st, a, n, d):
         if int(n) == 0:
             assert show_qty(round(qa)) == show_qty(r)
         return "ok qty " + show_qty(r)
+
+
+@op("load_predefined")
+def _load_predefined(st):
+    import quantity.predefined  # noqa: F401
+    return "ok failed=0"
+
+
+@op("conv_table")
+def _conv_table(st, cls, rows):
+    from quantity import TableConverter
+    c = _cls(st, cls)
+    table = []
+    for row in rows.split(";"):
+        ft, k, o = row.split(":")
+        f, t = ft.split(">")
+        table.append((Unit(f), Unit(t), to_dec_or_frac(parse_rat(k)),
+                      to_dec_or_frac(parse_rat(o))))
+    c.register_converter(TableConverter(table))
+    return "ok"
